@@ -203,7 +203,7 @@ def run(ctx):
                     for comp in range(ncomp) if ctx.thorough() else (0, ncomp - 1, ncomp // 2):
                         jobs.append((ctx.repo, "get_component", D, ts, nl, comp))
     by = {}
-    for job, r in zip(jobs, ctx.pmap(worker, jobs)):
+    for job, r in ctx.pairs(worker, jobs):
         cfg = r["cfg"]
         ev.obligation("per-image", not r["problems"], tuple(str(v) for v in cfg.values()) if cfg["leading_axes"] >= 1 else None, sample=cfg if ev.obligations % 23 == 0 else None)
         for kind, what, site in r["problems"]:
